@@ -25,6 +25,7 @@ PURE_STR_METHODS = {
     "startswith", "endswith", "replace", "split", "rsplit", "partition", "rpartition", "format", "zfill", "ljust", "rjust",
     "isdigit", "isalpha", "isascii", "removeprefix", "removesuffix", "splitlines", "count", "find", "rfind", "index", "hex",
     "translate", "join", "copy", "keys", "values", "items", "get",
+    "intersection", "union", "difference", "symmetric_difference", "issubset", "issuperset", "isdisjoint",
 }
 PURE_BUILTINS = {"len", "str", "bytes", "int", "float", "bool", "min", "max", "abs", "hex", "ord", "chr", "list", "tuple", "set",
                  "frozenset", "sorted", "reversed", "sum", "repr", "type", "iter", "next", "enumerate", "zip", "dict", "bytearray", "memoryview", "getattr", "hasattr", "range", "divmod", "round", "pow", "filter", "map"}
@@ -37,7 +38,7 @@ def term_of(av: AV) -> str:
     if av is None:
         return "?"
     if av.kind == "const":
-        r = repr(av.val)
+        r = repr(av.val) if not isinstance(av.val, (frozenset, set)) else "frozenset({" + ", ".join(sorted(map(repr, av.val))) + "})"
         STRUCT.setdefault(r, ("const", av.val))
         return r
     if av.sym:
@@ -280,7 +281,7 @@ class TermRule(BaseRule):
                     nxt += [(s2, acc + [av]) for s2, av in vals]
                 cur = nxt
             return [(s, AV("tuple", tuple(acc), truth=True, none=False)) for s, acc in cur], raises
-        if isinstance(node, (ast.GeneratorExp, ast.ListComp, ast.SetComp)) and len(node.generators) == 1:
+        if isinstance(node, (ast.GeneratorExp, ast.ListComp, ast.SetComp, ast.DictComp)) and len(node.generators) == 1:
             g = node.generators[0]
             vals, raises = it.eval(st, g.iter)
             if len(vals) != 1:
@@ -288,8 +289,19 @@ class TermRule(BaseRule):
             s0, itv = vals[0]
             I = term_of(itv)
             s = s0.copy()
-            it.assign(s, g.target, tv(T("each", I), none=False))
+            if isinstance(g.target, (ast.Tuple, ast.List)) and not any(isinstance(t_, (ast.Starred, ast.Tuple, ast.List)) for t_ in g.target.elts):
+                # `for k, v in I`: the components of the generic element, named as the statement loop names them
+                it.assign(s, g.target, AV("tuple", tuple(tv(T(f"each{i}", I)) for i in range(len(g.target.elts))), truth=True, none=False))
+            else:
+                it.assign(s, g.target, tv(T("each", I), none=False))
             conds = [self.cond_term(it, s, c) for c in g.ifs]
+            if isinstance(node, ast.DictComp):
+                kv_, r2 = it.eval(s, node.key)
+                vv_, r3 = it.eval(s, node.value)
+                if len(kv_) != 1 or len(vv_) != 1:
+                    return None
+                er = [o for o in list(r2) + list(r3) if o.kind == "raise"]
+                return [(s0, tv(T("dictcomp", term_of(kv_[0][1]), term_of(vv_[0][1]), I, *conds), none=False))], list(raises) + er
             ev_, r2 = it.eval(s, node.elt)
             if len(ev_) != 1:
                 return None
@@ -452,6 +464,23 @@ class TermRule(BaseRule):
                         outs.append(Out("normal", s2, const(keep if which == "any" else keep)))
         return outs
 
+    @staticmethod
+    def _itemgetter_keys(it, st, f):
+        """constant keys of an `operator.itemgetter(k1, ..)` callee: spelt in place, or bound once to a module-level name"""
+        def keys_of(c):
+            if isinstance(c, ast.Call) and not c.keywords and c.args and all(isinstance(a_, ast.Constant) for a_ in c.args):
+                q = it.m.resolve_name(it.module, c.func) or ""
+                if q.endswith("operator.itemgetter"):
+                    return [a_.value for a_ in c.args]
+            return None
+        if isinstance(f, ast.Call):
+            return keys_of(f)
+        if isinstance(f, ast.Name) and it.var(f.id) not in st.env:
+            stmts = it.m.assigns.get(it.module, {}).get(f.id) or []
+            if len(stmts) == 1 and isinstance(stmts[0], (ast.Assign, ast.AnnAssign)) and stmts[0].value is not None:
+                return keys_of(stmts[0].value)
+        return None
+
     def call(self, it, st, node, recv, pos, kw):
         f0 = node.func
         if isinstance(f0, ast.Name) and it.self_cls and not getattr(node, "_sa_alias_call", False):
@@ -464,6 +493,11 @@ class TermRule(BaseRule):
                 fake._sa_alias_call = True
                 vals_, raises_ = it.eval_call(st, fake)
                 return [Out("normal", s_, a_) for s_, a_ in vals_] + list(raises_)
+        ig = self._itemgetter_keys(it, st, f0)
+        if ig is not None and len(pos) == 1 and not kw:
+            # operator.itemgetter("a", "b")(d) is (d["a"], d["b"]); itemgetter("a")(d) is d["a"]
+            items = [tv(T("idx", term_of(pos[0]), K(k_))) for k_ in ig]
+            return [Out("normal", st, items[0] if len(items) == 1 else AV("tuple", tuple(items), truth=True, none=False))]
         try:
             pos, kw = self._canon_args(it, node, recv, it.resolve_callee(node, recv), pos, kw)  # hooks of every term rule see canonical arguments
         except Exception:
